@@ -40,6 +40,23 @@ fn run(part: &str, offs: &std::sync::Mutex<[u64; 2]>) -> Option<i32> {
             "c" => unsafe {
                 libc::close(if rest == "o" { 1 } else { 2 });
             },
+            // "g": wait until the file named by $VP_CHILD_GOFILE exists (the parent creates it once its call has returned);
+            // give up after 6 s and exit 9 - a parent that only returns when this process has exited shows as that 9
+            "g" => {
+                let go = std::env::var("VP_CHILD_GOFILE").unwrap_or_default();
+                let t0 = std::time::Instant::now();
+                let mut gave_up = false;
+                while !std::path::Path::new(&go).exists() {
+                    if t0.elapsed() > std::time::Duration::from_secs(6) {
+                        gave_up = true;
+                        break;
+                    }
+                    std::thread::sleep(std::time::Duration::from_millis(5));
+                }
+                if gave_up {
+                    return Some(9);
+                }
+            }
             "x" => code = Some(rest.parse().unwrap()),
             _ => panic!("step {step}"),
         }
